@@ -399,7 +399,13 @@ func (vfs *MemFS) Lstat(path string) (fs.FileInfo, error) {
 		op = "CreateFile"
 	}
 
-	_, child, _, err := vfs.searchNode(path, slmLstat)
+	slm := slmLstat
+	if len(path) > 1 && vfs.IsPathSeparator(path[len(path)-1]) {
+		// a final symbolic link followed by a separator is followed.
+		slm = slmStat
+	}
+
+	_, child, _, err := vfs.searchNode(path, slm)
 	if err != vfs.err.FileExists || child == nil {
 		return nil, &fs.PathError{Op: op, Path: path, Err: err}
 	}
